@@ -297,7 +297,11 @@ func restoreFile(name string, backupFi fs.FileInfo, base, backup FS) (err error)
 		return err
 	}
 
-	if !fi.Mode().IsRegular() {
+	baseFi, baseExists, err := lexists(base, name)
+	if err != nil {
+		return err
+	}
+	if !fi.Mode().IsRegular() || (baseExists && !baseFi.Mode().IsRegular()) {
 		// remove dir/symlink/etc and create a file there
 		err = base.RemoveAll(name)
 		if err != nil {
